@@ -30,6 +30,10 @@ CONSTANTS
     MaxBlocks, MaxNum, MaxLeaves, MaxEvents, KeySeq,
     D, MaxR, Start0, ErrMode, Reorg,
     Precond, FKinds, Emit,
+    AllowBad,     \* generate inadmissible events?
+    MinForkNum,   \* forks start and the head switches only at blocks with at least this number (0: anywhere)
+    SyncFrom,     \* Sync is called only for heads with at least this number (0: any); both shape
+                  \* long chains cheaply: a linear prefix, forks and syncs near the top
     SimLen        \* 0: exhaustive mode; > 0: simulation, histories of this length are printed
 
 Keys == {KeySeq[i] : i \in DOMAIN KeySeq}
@@ -40,7 +44,9 @@ vars == <<blk, canon, st, sb, stale, ok, tag, last, hist>>
 
 (* which path of the code the last Sync took (part of the VIEW, so that a history is printed for
    every reachable state AND every way the code can get there) *)
-NoTag == [rb |-> FALSE, gap |-> FALSE, nr |-> 0, k |-> "none", at |-> 0]
+(* rel: where the stored events sit relative to the rollback target block (-1 just below, 0 exactly
+   at it, 1 just above), for calls that roll back *)
+NoTag == [rb |-> FALSE, gap |-> FALSE, nr |-> 0, k |-> "none", at |-> 0, rel |-> {}]
 
 (* history entries; a sync entry carries the committed database state the spec predicts after the
    call (the replay continues with a concrete fault that produces it) *)
@@ -64,6 +70,7 @@ Mine(p, ev) ==
     /\ Len(blk) < MaxBlocks
     /\ p \in AncSelf(blk, canon)
     /\ blk[p].num < MaxNum
+    /\ p # canon => blk[p].num >= MinForkNum
     /\ ev # "" => /\ NumEvents(blk) < MaxEvents
                   /\ (ev # Bad => ev \notin BranchKeys(blk, p))
                   (* keys are interchangeable: use them in order *)
@@ -79,6 +86,7 @@ Mine(p, ev) ==
 
 Switch(b) ==
     /\ b \in DOMAIN blk /\ b # canon
+    /\ blk[b].num >= MinForkNum
     /\ canon' = b
     /\ last' = H("switch", b, "", "none", 0, NoPost)
     /\ hist' = Append(hist, last')
@@ -103,7 +111,9 @@ SbFold(prev, seq, i) == IF i > Len(seq) THEN prev ELSE SbFold(SbAfter(prev, seq[
 Info ==
     LET rb == st.synced.has /\ NumReorged(cfg, blk, CheckBlock(cfg, blk, canon, st.synced), st.synced) > 0
         r0 == Run(cfg, blk, canon, st, NoFault)
-    IN [rb |-> rb, nr |-> Len(r0.seq) - (IF rb THEN 1 ELSE 0)]
+        tgt == st.synced.num - NumReorged(cfg, blk, CheckBlock(cfg, blk, canon, st.synced), st.synced)
+    IN [rb |-> rb, nr |-> Len(r0.seq) - (IF rb THEN 1 ELSE 0),
+        rel |-> IF rb THEN {r.num - tgt : r \in {q \in st.stored : q.num - tgt \in {-1, 0, 1}}} ELSE {}]
 
 (* the faults that make a difference: a fault in the preamble (at = 0) matters only if a rollback
    is due, otherwise nothing happens at all *)
@@ -118,15 +128,16 @@ Sync(f, info) ==
           /\ sb' = SbFold(sb, r.seq, 1)
           /\ stale' = (sb' # 0 /\ sb' \notin AncSelf(blk, canon))
           /\ tag' = [rb |-> info.rb, gap |-> st.synced.has /\ blk[canon].num > st.synced.num + 1,
-                     nr |-> info.nr, k |-> f.k, at |-> f.at]
+                     nr |-> info.nr, k |-> f.k, at |-> f.at, rel |-> info.rel]
     /\ last' = [H("sync", 0, "", f.k, f.at, PostOf(st')) EXCEPT !.t = tag']
     /\ hist' = Append(hist, last')
     /\ UNCHANGED <<blk, canon>>
 
 Next ==
-    \/ \E p \in DOMAIN blk, ev \in {""} \cup Keys \cup {Bad} : Mine(p, ev)
+    \/ \E p \in DOMAIN blk, ev \in {""} \cup Keys \cup (IF AllowBad THEN {Bad} ELSE {}) : Mine(p, ev)
     \/ \E b \in DOMAIN blk : Switch(b)
     \/ /\ PreOK = TRUE
+       /\ blk[canon].num >= SyncFrom
        /\ LET info == Info IN \E f \in SyncFaults(info) : Sync(f, info)
 
 Spec == Init /\ [][Next]_vars
